@@ -4,6 +4,7 @@ import (
 	"fmt"
 	"math/rand"
 	"os"
+	"os/signal"
 	"path/filepath"
 	"regexp"
 	"runtime"
@@ -12,7 +13,11 @@ import (
 	"strings"
 	"sync"
 	"sync/atomic"
+	"syscall"
 	"time"
+
+	"github.com/bluenviron/gohlslib/v2"
+	"github.com/bluenviron/gohlslib/v2/pkg/codecs"
 
 	"verif/internal/ev"
 	"verif/internal/hx"
@@ -406,6 +411,7 @@ func checkC07(tier string, seed int64) int {
 	obs := map[string]int{}
 	sigs := map[string]bool{}
 	var samples []any
+	flushFault(rep, seed, obs, false)
 	ch := make(chan int)
 	var wg sync.WaitGroup
 	for w := 0; w < runtime.NumCPU(); w++ {
@@ -496,5 +502,120 @@ func init() {
 		}
 		fmt.Println("held on this case")
 		return 0
+	}
+}
+
+// flushFault: a disk write fault while a finished segment is being flushed (disk full, file size
+// limit, I/O error). The fault is real: for the one Write that rotates the segment the process's
+// file size limit is set to zero (SIGXFSZ ignored), then restored. It runs alone, before the
+// parallel cases, because the limit is process-wide. The writer goes on for a few units, then the
+// muxer is closed: Close returns, later requests are answered with a non-200 status and Directory
+// is empty, as after any other life.
+func flushFault(rep *ev.Reporter, seed int64, obs map[string]int, forC08 bool) {
+	signal.Ignore(syscall.SIGXFSZ)
+	defer signal.Reset(syscall.SIGXFSZ)
+	for k, variant := range []gohlslib.MuxerVariant{gohlslib.MuxerVariantMPEGTS, gohlslib.MuxerVariantFMP4, gohlslib.MuxerVariantLowLatency} {
+		ref := map[string]any{"property": "C07", "flush_fault": k, "seed": seed}
+		dir, err := os.MkdirTemp("", "c07ff")
+		if err != nil {
+			fmt.Println("HARNESS: C07 flush fault:", err)
+			return
+		}
+		tr := &gohlslib.Track{Codec: &codecs.H264{SPS: media.H264SPSVectors[0], PPS: media.H264PPS[0]}, ClockRate: 90000}
+		segCount := 3
+		if variant == gohlslib.MuxerVariantLowLatency {
+			segCount = 7
+		}
+		m := &gohlslib.Muxer{Variant: variant, SegmentCount: segCount, SegmentMinDuration: time.Second, Directory: dir, Tracks: []*gohlslib.Track{tr}}
+		if err := m.Start(); err != nil {
+			fmt.Println("HARNESS: C07 flush fault:", err)
+			os.RemoveAll(dir)
+			continue
+		}
+		ntp := time.Date(2024, 5, 1, 8, 0, 0, 0, time.UTC)
+		n := 0
+		writerPanicked := ""
+		write := func() (e error) {
+			if writerPanicked != "" {
+				return nil // an application that recovered from the panic stops writing
+			}
+			defer func() {
+				if pv := recover(); pv != nil {
+					writerPanicked = fmt.Sprint(pv)
+					e = fmt.Errorf("panic: %v", pv)
+				}
+			}()
+			nalu := make([]byte, 600+int(seed%200))
+			nalu[0] = 0x41
+			au := [][]byte{nalu}
+			if n%25 == 0 {
+				nalu[0] = 0x65
+				au = [][]byte{media.H264SPSVectors[0], media.H264PPS[0], nalu}
+			}
+			e = m.WriteH264(tr, ntp.Add(time.Duration(n)*40*time.Millisecond), int64(n)*3600, au)
+			n++
+			return e
+		}
+		for n < 25*(1+k)+10 { // one to three segments and ten units of the next
+			write()
+		}
+		for n%25 != 0 {
+			write()
+		}
+		var old syscall.Rlimit
+		syscall.Getrlimit(syscall.RLIMIT_FSIZE, &old)
+		syscall.Setrlimit(syscall.RLIMIT_FSIZE, &syscall.Rlimit{Cur: 0, Max: old.Max})
+		werr := write() // the key frame that rotates the segment
+		syscall.Setrlimit(syscall.RLIMIT_FSIZE, &old)
+		if werr != nil {
+			obs["flush_fault_writes_failed"]++
+		} else {
+			obs["flush_fault_write_went_through"]++ // RAM-buffered parts: nothing was written to disk in that Write
+		}
+		for i := 0; i < 8; i++ {
+			write()
+		}
+		if forC08 {
+			// C08's clause: no panic in Write* or Handle, whatever happened before
+			obs["write_fault_lives"]++
+			if writerPanicked != "" {
+				rep.Report("C08/write-fault/writer-panic", fmt.Sprintf("variant %d: after a Write had failed on a disk write fault during a rotation (%v) a later Write panicked: %s", variant, werr, writerPanicked), ref)
+			}
+			for _, u := range []string{"index.m3u8", "main_stream.m3u8", "video1_stream.m3u8"} {
+				if rq, st := hx.Get(m.Handle, u, 5*time.Second); st == hx.Done && rq.Resp.Panic != "" {
+					rep.Report("C08/write-fault/handler-panic", fmt.Sprintf("variant %d: %s requested after a Write had failed on a disk write fault panicked: %s", variant, u, rq.Resp.Panic), ref)
+				}
+			}
+			m.Close()
+			os.RemoveAll(dir)
+			continue
+		}
+		if writerPanicked != "" {
+			obs["flush_fault_writer_panicked"]++ // (C08's finding; here: Close must still do its job)
+		}
+		done := make(chan struct{})
+		go func() { m.Close(); close(done) }()
+		select {
+		case <-done:
+		case <-time.After(20 * time.Second):
+			rep.Report("C07/flush-fault/close-hangs", fmt.Sprintf("variant %d: Close did not return after a Write had failed on a disk write fault", variant), ref)
+			continue
+		}
+		rq, st := hx.Get(m.Handle, "index.m3u8", 10*time.Second)
+		if st != hx.Done {
+			rep.Report("C07/flush-fault/later-stuck", fmt.Sprintf("variant %d: index.m3u8 requested after Close did not return", variant), ref)
+		} else if rq.Resp.Status == 200 {
+			rep.Report("C07/flush-fault/status", fmt.Sprintf("variant %d: index.m3u8 requested after Close answered 200", variant), ref)
+		}
+		es, _ := os.ReadDir(dir)
+		if len(es) > 0 {
+			var names []string
+			for _, e := range es {
+				names = append(names, e.Name())
+			}
+			rep.Report("C07/flush-fault/files-left", fmt.Sprintf("variant %d: Directory still holds %v after Close (a Write had failed on a disk write fault during a rotation: %v)", variant, names, werr), ref)
+		}
+		obs["flush_fault_lives"]++
+		os.RemoveAll(dir)
 	}
 }
